@@ -108,3 +108,25 @@ Section Pinned.
       apply repeat_spec in Hs. exact Hs.
   Qed.
 End Pinned.
+
+(* the repaired PySwarms conversion: personal bests with their own costs *)
+Section PbestFixed.
+  Variable V : Type.
+  Variables (add sub : V -> V -> V) (neghalf : V -> V) (one : V).
+  Variable prior : list V -> V.
+  Variable L : list V -> V.
+  Variable nonneg : V -> Prop.
+  Hypothesis sub_add : forall a b, sub (add a b) b = a.
+  Hypothesis one_nonneg : nonneg one.
+
+  Lemma pyswarms_pbest_pairing paths rows cost out :
+    rows_ok V paths rows ->
+    Forall2 (fun x c => neghalf c = add (L x) (prior x)) rows cost ->
+    pyswarms_pbest_convert V sub neghalf one prior paths rows cost = Some out ->
+    Forall (faithful V prior L nonneg) out /\ map (s_vec V) out = rows.
+  Proof.
+    intros Hok Hc. unfold pyswarms_pbest_convert. intros H; injection H as <-.
+    apply (post_rows_faithful V add sub one prior L nonneg sub_add one_nonneg); auto.
+    unfold post_contract. clear Hok. induction Hc; simpl; constructor; auto.
+  Qed.
+End PbestFixed.
